@@ -24,7 +24,7 @@ from . import findlib as fl
 CHIRAL = {"chiral", "asym4", "asym5"}          # patterns whose mirror image is NOT an occurrence
 POSES = ["random", "identity", "axis90", "axis180", "anti"]
 FRACS = [0.0, 0.01, 0.5, 0.99, 0.999]
-CELLS = ["ortho", "tri+", "tri-", "rot"]
+CELLS = ["ortho", "tri+", "tri-", "rot", "upper", "sparse"]
 
 
 # ------------------------------------------------------------------ independent specification of "occurrence"
@@ -159,9 +159,17 @@ def _cell(rng, kind, d, atol, tight):
             if min(fl.perp_widths(cf)) > D + 1.0:
                 return cf
             continue
-        cell = fl.make_cell(rng, kind, max(7.0, 2.2 * d + 3))
+        if kind in ("upper", "sparse"):
+            # tilt entries ABOVE the diagonal only ("upper"), or any non-empty sparse subset of the six off-diagonal
+            # entries ("sparse", e.g. a = (10, 0, 4), b = (0, 10, 0), c = (0, 0, 10)): not orthorhombic, not in LAMMPS form
+            cell = fl.make_cell(rng, "ortho", max(7.0, 2.2 * d + 3))
+            slots = [(0, 1), (0, 2), (1, 2)] if kind == "upper" else [(0, 1), (0, 2), (1, 2), (1, 0), (2, 0), (2, 1)]
+            for (i, j) in rng.sample(slots, rng.randint(1, 2 if kind == "sparse" else 3)):
+                cell[i][j] = rng.choice([1, -1]) * Fraction(rng.randint(2, 32), 8)
+        else:
+            cell = fl.make_cell(rng, kind, max(7.0, 2.2 * d + 3))
         cf = np.array([[float(v) for v in row] for row in cell])
-        if negative_diagonal(cf):
+        if negative_diagonal(cf) or abs(np.linalg.det(cf)) < 1e-6:
             continue
         w = min(fl.perp_widths(cf))
         if tight:
@@ -324,7 +332,7 @@ def crossings(case):
 
 def random_case(rng, atol=0.05, pname=None, cell_kind=None, boundary=None, tight=None, perturb_div=8.0, ndecoy=None):
     pname = pname or rng.choice(list(fl.PATTERNS))
-    cell_kind = cell_kind or rng.choice(["ortho", "ortho", "tri+", "tri-", "rot"])
+    cell_kind = cell_kind or rng.choice(["ortho", "ortho", "tri+", "tri-", "rot", "upper", "sparse"])
     tight = (rng.random() < 0.2) if tight is None else tight
     ncop = 1 if tight else rng.randint(1, 3)
     copies = []
@@ -491,3 +499,56 @@ def tilted_twin(rng, cell):
     cf[2][0] = t()
     cf[2][1] = t()
     return cf
+
+
+# ------------------------------------------------------------------ systematically distorted copies, large tolerances
+
+def distorted_case(rng, atol=None):
+    """ONE copy of a pattern in which two atoms i, j are moved APART (or together) along their connecting line by
+    0.40..0.46 atol EACH (every atom stays within 0.46 atol + atol/60 of an exact rigid image: the pair distance changes
+    by up to 0.92 atol), searched with a LARGE tolerance (0.3..0.5 A, bonds 1.1..1.5 A).
+    The pair is the search axis: either the automatic one (first farthest pair, no hints) or given by hints
+    (i, j, None).  With the first axis atom pinned the pattern then misses the other axis atom by <= 0.92 atol and every
+    other atom by <= 0.46 atol (+ noise) — inside the tolerance of the final comparison by construction.
+    Validated by the brute-force enumerator with `inside = 0.5`.  Returns (case, hints, atol) or None."""
+    atol = atol or rng.choice([0.3, 0.4, 0.5])
+    pname = rng.choice(["pair", "pair_same", "pair@y", "pair@z", "bent", "collinear_asym", "halo", "siloxy", "asym4",
+                        "planar4", "collinear3"])
+    pat = fl.pattern_json(pname)
+    ppos, pel = pat["pos"], pat["elems"]
+    P = np.array([[float(x) for x in p] for p in ppos])
+    n = len(P)
+    d2 = ((P[:, None, :] - P[None, :, :]) ** 2).sum(axis=2)
+    ai, aj = [int(x) for x in np.unravel_index(np.argmax(d2), d2.shape)]
+    if rng.random() < 0.5 or n == 2:
+        i, j, hints = ai, aj, (None, None, None)
+        if n == 2 and rng.random() < 0.5:
+            i, j = rng.sample([0, 1], 2)
+            hints = (i, j, None)
+    else:
+        pairs = [(a, b) for a in range(n) for b in range(n) if a != b and d2[a, b] <= 1.6 ** 2] or [(ai, aj)]
+        i, j = rng.choice(pairs)                       # a short bond, made the axis by the hints
+        hints = (i, j, None)
+    f = rng.uniform(0.40, 0.46) * (1 if rng.random() < 0.75 else -1)
+    u = (P[j] - P[i]) / np.linalg.norm(P[j] - P[i])
+    Q = P.copy()
+    Q[i] -= f * atol * u
+    Q[j] += f * atol * u
+    d = fl.diam(ppos)
+    for _ in range(12):
+        cf = _cell(rng, rng.choice(["ortho", "tri+", "tri-", "rot", "upper"]), d + 2 * atol, atol, False)
+        cinv = np.linalg.inv(cf)
+        R = np.array([[float(x) for x in row] for row in pose_rotation(rng, rng.choice(POSES), ppos)])
+        fr = [rng.choice(FRACS) if rng.random() < 0.6 else rng.random() for _ in range(3)]
+        origin = np.array(fr).dot(cf)
+        pts = [wrap(R.dot(q) + origin + np.array([rng.uniform(-1, 1) for _ in range(3)]) * (atol / 60 / math.sqrt(3)), cf, cinv)
+               for q in Q]
+        elems, pos = list(pel), list(pts)
+        case = {"elems": elems, "pos": [[float(x) for x in v] for v in pos], "cell": cf.tolist(),
+                "pattern": {"elems": list(pel), "pos": P.tolist(), "name": pname}, "planted": [tuple(range(n))],
+                "info": {"cell": "distorted", "pattern": pname, "copies": 1, "tight": False, "attempts": 1,
+                         "kinds": ["copy:pair-%s-by-%.2f-atol-each" % ("stretched" if f > 0 else "compressed", abs(f))]}}
+        ins, amb = brute_occurrences(elems, case["pos"], case["cell"], pel, P.tolist(), atol, inside=0.5)
+        if not amb and ins == {tuple(range(n))}:
+            return case, hints, atol
+    return None
